@@ -275,5 +275,7 @@ class ZMQEventLoop(EventLoop):
                 self._did_something = True
 
         for queue in ready:
-            self._queue_callbacks[queue]()
-            self._did_something = True
+            # a watch removed by an earlier callback of this batch is not called
+            if queue in self._queue_callbacks:
+                self._queue_callbacks[queue]()
+                self._did_something = True
